@@ -90,16 +90,34 @@ KeepP(ps, S)    == LET a == SelAsc(S \cap (1..Len(ps))) IN [i \in 1..Len(a) |-> 
 CollectP(ps, l) == [i \in 1..Len(l) |-> Own(ps[l[i]])]
 RotateP(ps, S, r) == [i \in 1..Len(ps) |-> IF i \in S THEN [ps[i] EXCEPT !.rot = (@ + r) % 360] ELSE ps[i]]
 
-(* pb = [media, crop, trim, bleed, art], each a rectangle or NoBox (= not mentioned) *)
-AddBoxesP(ps, S, pb) ==
-  [i \in 1..Len(ps) |-> IF i \notin S THEN ps[i] ELSE
-     [ps[i] EXCEPT !.media = IF IsBox(pb.media) THEN pb.media ELSE @,
-                   !.omedia = IF IsBox(pb.media) THEN TRUE ELSE @,
-                   !.crop  = IF IsBox(pb.crop)  THEN pb.crop  ELSE @,
-                   !.cinh  = IF IsBox(pb.crop)  THEN FALSE    ELSE @,
-                   !.trim  = IF IsBox(pb.trim)  THEN pb.trim  ELSE @,
-                   !.bleed = IF IsBox(pb.bleed) THEN pb.bleed ELSE @,
-                   !.art   = IF IsBox(pb.art)   THEN pb.art   ELSE @]]
+(* Box specifications of "boxes add": for each of media, crop, trim, bleed, art one of                         *)
+(*   none                   the box is not mentioned                                                            *)
+(*   rect r                 an absolute rectangle                                                               *)
+(*   marg <<t, r, b, l>>    margins (points) to the parent box: the media box is the parent of the crop box,    *)
+(*                          the (effective) crop box is the parent of trim, bleed and art box                   *)
+(*   ref name               trim/bleed/art only: the position of another box ("media", "crop", "trim", ...),    *)
+(*                          taken after the definitions of this request, an absent box standing for its default *)
+SpecNone        == [k |-> "none", r |-> NoBox, m |-> <<0, 0, 0, 0>>, ref |-> ""]
+SpecRect(r)     == [k |-> "rect", r |-> r, m |-> <<0, 0, 0, 0>>, ref |-> ""]
+SpecMarg(t, r, b, l) == [k |-> "marg", r |-> NoBox, m |-> <<t, r, b, l>>, ref |-> ""]
+SpecRef(name)   == [k |-> "ref", r |-> NoBox, m |-> <<0, 0, 0, 0>>, ref |-> name]
+Given(sp)       == sp.k # "none"
+ApplySpec(sp, parent) == IF sp.k = "rect" THEN sp.r
+                         ELSE <<parent[1] + sp.m[4], parent[2] + sp.m[3], parent[3] - sp.m[2], parent[4] - sp.m[1]>>
+BoxByName(p, name) == CASE name = "media" -> p.media [] name = "crop" -> EffCrop(p) [] name = "trim" -> EffTrim(p)
+                        [] name = "bleed" -> EffBleed(p) [] name = "art" -> EffArt(p)
+AddBoxesPage(p, pb) ==
+  LET p1 == [p EXCEPT !.media  = IF Given(pb.media) THEN ApplySpec(pb.media, p.media) ELSE @,
+                      !.omedia = IF Given(pb.media) THEN TRUE ELSE @,
+                      !.crop   = IF Given(pb.crop) THEN ApplySpec(pb.crop, p.media) ELSE @,
+                      !.cinh   = IF Given(pb.crop) THEN FALSE ELSE @]
+      par == EffCrop(p1)
+      def(sp, cur) == IF sp.k \in {"rect", "marg"} THEN ApplySpec(sp, par) ELSE cur
+      p2 == [p1 EXCEPT !.trim = def(pb.trim, @), !.bleed = def(pb.bleed, @), !.art = def(pb.art, @)]
+      p3 == [p2 EXCEPT !.trim  = IF pb.trim.k  = "ref" THEN BoxByName(p2, pb.trim.ref)  ELSE @]
+      p4 == [p3 EXCEPT !.bleed = IF pb.bleed.k = "ref" THEN BoxByName(p3, pb.bleed.ref) ELSE @]
+  IN    [p4 EXCEPT !.art   = IF pb.art.k   = "ref" THEN BoxByName(p4, pb.art.ref)   ELSE @]
+AddBoxesP(ps, S, pb) == [i \in 1..Len(ps) |-> IF i \in S THEN AddBoxesPage(ps[i], pb) ELSE ps[i]]
 (* kinds \subseteq {"crop","trim","bleed","art"}: a removed crop box defaults to the media box, *)
 (* removed trim/bleed/art boxes default to the crop box                                         *)
 RemoveBoxesP(ps, S, kinds) ==
@@ -207,6 +225,15 @@ AttExtract(ns) ==
   /\ ext' = {[name |-> n, data |-> attach[n].data] : n \in want}
   /\ res' = (IF DOMAIN attach = {} THEN "refuse" ELSE "ok")
   /\ UNCHANGED <<pagevars, keywords, props, layout, mode, vprefs, attach>>
+
+(* Configuration switches of the implementation (optimisation passes, writer layout): they never change the *)
+(* abstract state - every action means the same under every configuration.                                *)
+Conf(opt, optbw, resdicts, dupcs, objstm, xrefstm) ==
+  [optimize |-> opt, optbw |-> optbw, resdicts |-> resdicts, dupcs |-> dupcs, objstm |-> objstm, xrefstm |-> xrefstm]
+Confs == <<Conf(TRUE, TRUE, TRUE, FALSE, TRUE, TRUE),      \* the defaults
+           Conf(TRUE, TRUE, TRUE, TRUE, TRUE, TRUE),       \* + duplicate content stream optimisation
+           Conf(FALSE, FALSE, FALSE, FALSE, FALSE, FALSE), \* no optimisation, classic xref table, no object streams
+           Conf(TRUE, FALSE, FALSE, TRUE, FALSE, TRUE)>>   \* optimise after reading only, xref stream without object streams
 
 DocInit(ps) == /\ pages = ps /\ nblank = 0 /\ keywords = {} /\ props = EmptyFn /\ layout = "" /\ mode = ""
                /\ vprefs = EmptyFn /\ attach = EmptyFn /\ res = "ok" /\ ext = {}
